@@ -51,6 +51,38 @@ theorem add_sequence_no_panic (lex : Name → Lex) :
     | err e => simp
     | panic s' => rw [hr] at h; exact h.elim
 
+/-! ## T2 — fails exactly for the listed defects -/
+
+/- **T2 `add_fails_iff`** (full statement): `register Cfg.fixed lex st items`
+   is `err _` iff the library has (1) a named item whose name is not a valid
+   non-keyword identifier, or (2) two items binding the same name in one scope
+   (or a name bound there already in `st`; for `use` items: two uses binding the
+   same name in the scope they are registered in), or (3) a `type` item whose
+   Rust type id is registered in `st` or by another `type` item, or (4) a
+   function / constant / impl block mentioning a type id registered neither in
+   `st` nor by the library — or one of the structural errors the API also
+   reports: a module, type or impl block inside an impl block, a `use` item
+   with an empty path, a `use` path through something that owns no scope.
+
+   Proved below (`add_fails_iff_partial`): clause (1) in both directions
+   (an invalid name anywhere makes the registration fail with `invalidName`
+   before `Rt::add` runs; with valid names `register` is `Rt::add`), and the
+   "only if" direction of clause (4) for functions and constants (on success
+   every mentioned type is registered — `reachable_partial`).  Missing: the
+   characterisation of clauses (2) and (3) and the "if" direction of (4); the
+   correspondence run injects each of the four defects at every position. -/
+
+/-- **T2, clause (1)** and the reduction to `Rt::add`. -/
+theorem add_fails_iff_partial (lex : Name → Lex) (st : St) (items : Items) :
+    (¬ NamesValid lex items → register Cfg.fixed lex st items = .err .invalidName) ∧
+    (NamesValid lex items → register Cfg.fixed lex st items = add Cfg.fixed lex st items) := by
+  constructor
+  · intro h
+    have : namesOk Cfg.fixed lex items ≠ true := fun hn => h ((namesOk_iff lex items).mp hn)
+    simp [register, this]
+  · intro h
+    simp [register, (namesOk_iff lex items).mpr h]
+
 /-! ## T3 — reachable where declared -/
 
 /- **T3 `reachable`** (full statement): after `register … = ok st'`, every
@@ -112,6 +144,13 @@ def st0 : St := St.init [(50, 100)] []
 /-- non-vacuity of T1: `st0` is well-formed and a nested library registers -/
 example : (register Cfg.fixed lexV st0 (il [.module 0 (il [.module 1 (il [fn0 2 7])]), .use [[0, 1, 2]]])).isOk = true := by
   decide
+
+/-- non-vacuity: a keyword name is rejected, wherever it sits -/
+example :
+    register Cfg.fixed (fun n => if n = 3 then ⟨some (some .keyword), false, true⟩ else lexV n) st0
+      (il [.module 0 (il [.impl 100 (il [fn0 3 1])])]) = .err .invalidName := by
+  apply (add_fails_iff_partial _ _ _).1
+  simp [il, fn0, NamesValid, NameValidItem, ValidName]
 
 /-- non-vacuity of T3: a function two modules deep -/
 example : ItemAt (il [.module 0 (il [.module 1 (il [fn0 2 7])]), .use [[0, 1, 2]]]) [0, 1] (fn0 2 7) :=
